@@ -30,6 +30,10 @@ type DirPlan struct {
 	// (TCP coalescing of back-to-back writes: the receiver finds the bytes of
 	// both writes in one read). Absent/0: every segment is its own delivery.
 	Coalesce []int `json:"coalesce,omitempty"`
+	// Window > 0: back-pressure. At most Window bytes may be accepted from the
+	// writer and not yet read by the receiver; Write blocks (honouring the write
+	// deadline) until the reader makes room. 0: unbounded, Write never blocks.
+	Window int `json:"window,omitempty"`
 	// Edits alter the byte stream in flight (offsets count bytes written by the sender).
 	Edits []Edit `json:"edits,omitempty"`
 }
@@ -92,6 +96,7 @@ type dir struct {
 	// the same event would proceed in an order only the Go scheduler knows.
 	cond  *sync.Cond
 	fcond *sync.Cond
+	wcond *sync.Cond // the writer waits here for window space
 	peer  *dir
 
 	// sender side
@@ -101,6 +106,9 @@ type dir struct {
 	lastSched    time.Duration
 	inflight     int // bytes scheduled but not yet delivered (or dropped)
 	flushWaiters int
+	writeWaiters int
+	wdeadline    time.Time
+	wdTimer      *time.Timer
 	wclosed      bool
 	lastSeg      *pendSeg // segment scheduled last (Coalesce)
 
@@ -152,6 +160,7 @@ func New(sim *core.Sim, p Plan) *Link {
 		d := &dir{name: name, plan: dp, sim: sim, cutOff: -1, mu: lmu}
 		d.cond = sync.NewCond(lmu)
 		d.fcond = sync.NewCond(lmu)
+		d.wcond = sync.NewCond(lmu)
 		return d
 	}
 	l := &Link{sim: sim, ab: mk("ab", p.AB), ba: mk("ba", p.BA), mu: lmu}
@@ -222,6 +231,7 @@ func (d *dir) killLocked(silent bool) {
 	d.inflight = 0
 	d.cond.Broadcast()
 	d.fcond.Broadcast()
+	d.wcond.Broadcast()
 }
 
 // cutLocked is a link failure detected while delivering in direction d. Both
@@ -236,6 +246,7 @@ func (d *dir) cutLocked(silent bool) {
 	d.eof = true
 	d.cond.Broadcast()       // the reader of d ...
 	d.peer.fcond.Broadcast() // ... which is also the writer of d.peer
+	d.peer.wcond.Broadcast()
 	p := d.peer
 	d.sim.At(0, func() {
 		d.mu.Lock()
@@ -243,6 +254,7 @@ func (d *dir) cutLocked(silent bool) {
 		p.eof = true
 		p.cond.Broadcast()
 		d.fcond.Broadcast()
+		d.wcond.Broadcast()
 		d.mu.Unlock()
 	})
 }
@@ -287,60 +299,118 @@ func (d *dir) applyEdits(p []byte) []byte {
 
 func (d *dir) write(p []byte) (int, error) {
 	d.mu.Lock()
-	if d.wclosed {
-		d.mu.Unlock()
-		return 0, net.ErrClosed
-	}
-	if d.dead || d.rclosed {
-		silent := d.silent && d.dead
-		d.mu.Unlock()
-		if silent {
-			return len(p), nil
-		}
-		return 0, errBroken
-	}
-	n := len(p)
-	data := d.applyEdits(p)
-	d.written += n
+	total := 0
 	wi := d.writeIdx
 	d.writeIdx++
-	// split into segments and schedule each at its own instant
 	merge := core.TapeAt(d.plan.Coalesce, wi, 0) > 0
-	for len(data) > 0 {
-		sz := core.TapeAt(d.plan.Seg, d.segIdx, 0)
-		d.segIdx++
-		if sz <= 0 || sz > len(data) {
-			sz = len(data)
+	for {
+		if d.wclosed {
+			d.mu.Unlock()
+			return total, net.ErrClosed
 		}
-		seg := append([]byte(nil), data[:sz]...)
-		data = data[sz:]
-		if merge {
-			merge = false
-			if ps := d.lastSeg; ps != nil && !ps.done {
-				ps.data = append(ps.data, seg...)
-				d.inflight += len(seg)
+		if d.dead || d.rclosed {
+			silent := d.silent && d.dead
+			d.mu.Unlock()
+			if silent {
+				return len(p), nil
+			}
+			return total, errBroken
+		}
+		chunk := p[total:]
+		if len(chunk) == 0 {
+			break
+		}
+		if w := d.plan.Window; w > 0 {
+			// back-pressure: at most Window bytes accepted but not yet read
+			avail := w - d.inflight - len(d.buf)
+			if avail <= 0 {
+				if !d.wdeadline.IsZero() && !time.Now().Before(d.wdeadline) {
+					d.mu.Unlock()
+					return total, os.ErrDeadlineExceeded
+				}
+				d.sim.Probe("writer-blocked-on-window")
+				d.writeWaiters++
+				d.wcond.Wait()
+				d.writeWaiters--
 				continue
 			}
+			if avail < len(chunk) {
+				chunk = chunk[:avail]
+			}
 		}
-		lat := time.Duration(core.TapeAt(d.plan.LatUs, d.segIdx, 100)) * time.Microsecond
-		if lat < 0 {
-			lat = 0
+		data := d.applyEdits(chunk)
+		d.written += len(chunk)
+		total += len(chunk)
+		// split into segments and schedule each at its own instant
+		for len(data) > 0 {
+			sz := core.TapeAt(d.plan.Seg, d.segIdx, 0)
+			d.segIdx++
+			if sz <= 0 || sz > len(data) {
+				sz = len(data)
+			}
+			seg := append([]byte(nil), data[:sz]...)
+			data = data[sz:]
+			if merge {
+				merge = false
+				if ps := d.lastSeg; ps != nil && !ps.done {
+					ps.data = append(ps.data, seg...)
+					d.inflight += len(seg)
+					continue
+				}
+			}
+			lat := time.Duration(core.TapeAt(d.plan.LatUs, d.segIdx, 100)) * time.Microsecond
+			if lat < 0 {
+				lat = 0
+			}
+			base := d.sim.Now()
+			if d.lastSched > base {
+				base = d.lastSched
+			}
+			d.inflight += len(seg)
+			ps := &pendSeg{data: seg}
+			d.lastSeg = ps
+			at := d.sim.AtAbs(base+lat, func() { d.deliver(ps) })
+			d.lastSched = at
 		}
-		base := d.sim.Now()
-		if d.lastSched > base {
-			base = d.lastSched
-		}
-		d.inflight += len(seg)
-		ps := &pendSeg{data: seg}
-		d.lastSeg = ps
-		at := d.sim.AtAbs(base+lat, func() { d.deliver(ps) })
-		d.lastSched = at
 	}
 	d.mu.Unlock()
 	if wd := core.TapeAt(d.plan.WriteDelayUs, wi, 0); wd > 0 {
 		time.Sleep(time.Duration(wd) * time.Microsecond)
 	}
-	return n, nil
+	return total, nil
+}
+
+// wakeWriterLater wakes a writer blocked on the window at an instant of its own.
+func (d *dir) wakeWriterLater() {
+	if d.writeWaiters == 0 {
+		return
+	}
+	d.sim.At(0, func() {
+		d.mu.Lock()
+		d.wcond.Broadcast()
+		d.mu.Unlock()
+	})
+}
+
+func (d *dir) setWriteDeadline(t time.Time) {
+	d.mu.Lock()
+	defer d.mu.Unlock()
+	d.wdeadline = t
+	if d.wdTimer != nil {
+		d.wdTimer.Stop()
+		d.wdTimer = nil
+	}
+	if !t.IsZero() && d.plan.Window > 0 {
+		dur := time.Until(t)
+		if dur < 0 {
+			dur = 0
+		}
+		d.wdTimer = time.AfterFunc(dur, func() {
+			d.mu.Lock()
+			d.wcond.Broadcast()
+			d.mu.Unlock()
+		})
+	}
 }
 
 func (d *dir) deliver(ps *pendSeg) {
@@ -396,6 +466,7 @@ func (d *dir) read(p []byte) (int, error) {
 		if len(d.buf) > 0 {
 			n := copy(p, d.buf)
 			d.buf = d.buf[n:]
+			d.wakeWriterLater()
 			return n, nil
 		}
 		if d.eof {
@@ -461,6 +532,7 @@ func (d *dir) closeRead() {
 	d.mu.Lock()
 	d.rclosed = true
 	d.buf = nil
+	d.wakeWriterLater()
 	if d.rdTimer != nil {
 		d.rdTimer.Stop()
 		d.rdTimer = nil
@@ -522,6 +594,7 @@ func (e *End) RemoteAddr() net.Addr { return e.raddr }
 
 func (e *End) SetDeadline(t time.Time) error {
 	e.rx.setReadDeadline(t)
+	e.tx.setWriteDeadline(t)
 	return nil
 }
 func (e *End) SetReadDeadline(t time.Time) error {
@@ -529,8 +602,11 @@ func (e *End) SetReadDeadline(t time.Time) error {
 	return nil
 }
 
-// SetWriteDeadline is accepted and ignored: writes never block on the window.
-func (e *End) SetWriteDeadline(t time.Time) error { return nil }
+// SetWriteDeadline matters only on links with a Window (back-pressure).
+func (e *End) SetWriteDeadline(t time.Time) error {
+	e.tx.setWriteDeadline(t)
+	return nil
+}
 
 // TxBufferLen is the number of bytes written but not yet delivered.
 func (e *End) txBufferLen() int {
